@@ -38,8 +38,8 @@ PLAN = {
                               "implementation coverage is statistical: the Go scheduler is not steered inside the backends"]},
     "C16": {"runs": [dict(engine="race", profile="c16", n={"quick": 1, "thorough": 1}, race=True, timeout={"quick": 900, "thorough": 3000})],
             "trusted_extra": ["the Go memory model, sync, sync/atomic, sync.Map and channel semantics are axioms of the footprint semantics",
-                              "the general theorem 'lock discipline implies data-race freedom' (lockset argument) is assumed, not proved",
-                              "the footprint table is hand-written from the source and tied to the code by the race detector only"]},
+                              "the lockset theorem is proved for the trace semantics of CacheModel/MemModel.lean; that this semantics matches the Go memory model document is assumed",
+                              "the footprint table is hand-written; tools/gofacts (unverified, syntactic) re-derives every access with the lock held at it from /repo on every run and the table must cover it; which callbacks run under their caller's lock is asserted by hand (listed in coverage.footprint_tie)"]},
     "C13": {"runs": [eng("xfer", "c13", 100, 1500), eng("xfer", "c14", 60, 600)],
             "trusted_extra": ["encoding/gob is modelled as the identity on {K,V,E,C} records decoded into fresh variables"]},
     "C14": {"runs": [eng("xfer", "c14", 60, 600)],
